@@ -2,7 +2,7 @@
 CONTRACTS = {}
 
 
-def contract(name, props, functions, domain, bound=None, tier="quick", assumes=()):
+def contract(name, props, functions, domain, bound=None, tier="quick", assumes=(), covers=(), chain=(), weight=1):
     """Register `fn(h)` as the contract harness `name`.
 
     props: property ids whose verdict uses this contract's obligations
@@ -22,6 +22,9 @@ def contract(name, props, functions, domain, bound=None, tier="quick", assumes=(
             "bound": bound,
             "tier": tier,
             "assumes": list(assumes),
+            "covers": list(covers),
+            "chain": list(chain),
+            "weight": weight,
         }
         return fn
 
